@@ -76,6 +76,9 @@ BUILTIN_STRUCTS = {
     'NeverShortCircuit': (['T'], [('0', 'T')]),
     'Range': (['T'], [('start', 'T'), ('end', 'T')]),
     'RangeInclusive': (['T'], [('start', 'T'), ('end', 'T'), ('exhausted', 'bool')]),
+    'RangeTo': (['T'], [('end', 'T')]),
+    'RangeFrom': (['T'], [('start', 'T')]),
+    'RangeToInclusive': (['T'], [('end', 'T')]),
     'Iter': (['T'], [('ptr', 'NonNull<T>'), ('end_or_len', '*const T'), ('_marker', '()')]),
     'IterMut': (['T'], [('ptr', 'NonNull<T>'), ('end_or_len', '*mut T'), ('_marker', '()')]),
     'Enumerate': (['I'], [('iter', 'I'), ('count', 'usize')]),
